@@ -10,7 +10,7 @@ from sa.source import methods
 from sa.props._lib_d import (NONNULL, call_nodes, calls_with, const_value_is, handler_names, implied, local_def, path_under, peval,
                              reach_under, self_assigns, slice_parts, succ_of, test_value)
 from sa.props._lib_d import must_pass_under as _must_pass_under
-from sa.props._lib_d import Views
+from sa.props._lib_d import Views, resolve_locals, facts_at
 
 PROPERTY = "C17"
 T = "protocols/tls.py"
@@ -312,7 +312,7 @@ def check(ctx):
                 continue
             names = handler_names(g.node(h).ast)
             if names == ["WantReadError"]:
-                back = g.path([h], [rn], strict=True, edge_ok=_nx)
+                back = path_under(g, {}, [rn], srcs=[h])
                 ctx.check(back is None, "data/loop-terminates", ctx.construct(q, "except WantReadError:"),
                           "after WantReadError (no more application data) the loop calls recv() again: busy loop", witness=g.describe(back))
             else:
@@ -546,7 +546,7 @@ def check(ctx):
         sn, scall = snd[0]
         sst = g.node(sn).ast
         sentv = sst.targets[0].id if isinstance(sst, ast.Assign) and isinstance(sst.targets[0], ast.Name) else None
-        chunk = local_def(f, scall.args[0]) if scall.args else None
+        chunk = resolve_locals(f, scall.args[0]) if scall.args else None
         sp = slice_parts(chunk) if chunk is not None else None
         posv = src(sp[1]) if sp and sp[1] is not None else None
         ok = bool(sp) and src(sp[0]) == bparam and posv is not None and sp[2] is not None and posv in src(sp[2])
@@ -571,7 +571,7 @@ def check(ctx):
                 w = g.must_pass([h], [n for n, _ in mine])
                 ctx.check(bool(mine) and w is None, "write/wantread-rebuffers", hc, "data OpenSSL cannot take yet is dropped instead of being buffered", witness=g.describe(w))
                 for n, c in mine:
-                    a = slice_parts(c.args[0]) if c.args else None
+                    a = slice_parts(resolve_locals(f, c.args[0])) if c.args else None
                     ctx.check(bool(a) and src(a[0]) == bparam and a[1] is not None and src(a[1]) == posv and a[2] is None, "write/wantread-rebuffers-unsent-suffix",
                               ctx.construct(q, c), "what is re-buffered is not exactly the unsent suffix bytes[alreadySent:] (a prefix is duplicated or the tail is lost)")
             else:
@@ -649,14 +649,22 @@ def check(ctx):
         # ---- sec: BufferingTLSTransport.writeSequence
         f = _F(ctx, T, "BufferingTLSTransport.writeSequence")
         ip = f.args.args[1].arg
-        ok = any(call_name(c) in ("self._aggregator.write", "self.write") and c.args and src(c.args[0]) == f"b''.join({ip})" for c in walk_local(f) if isinstance(c, ast.Call))
+        ok = any(call_name(c) in ("self._aggregator.write", "self.write") and c.args and src(resolve_locals(f, c.args[0])) == f"b''.join({ip})"
+                 for c in walk_local(f) if isinstance(c, ast.Call))
         ctx.check(ok, "aggregate/sequence-routes-through-aggregator", Q + "BufferingTLSTransport.writeSequence",
                   "writeSequence bypasses the aggregator: its bytes overtake earlier small writes still waiting there")
     with ctx.section("BufferingTLSTransport.__init__"):
         # ---- sec: BufferingTLSTransport.__init__
         f = _F(ctx, T, "BufferingTLSTransport.__init__")
-        srcs_ = [src(st) for st in walk_local(f) if isinstance(st, ast.Assign)]
-        ctx.check("self.write = self._aggregator.write" in srcs_ and any(s.startswith("self._aggregator = _AggregateSmallWrites(") for s in srcs_),
+        # self.write is the .write of the very object stored in self._aggregator (named directly, or through the same local),
+        # and that object is built by _AggregateSmallWrites(...)
+        assigns = [st for st in walk_local(f) if isinstance(st, ast.Assign)]
+        wdefs = [st.value for st in assigns if any(src(t) == "self.write" for t in st.targets)]
+        adefs = [st.value for st in assigns if any(src(t) == "self._aggregator" for t in st.targets)]
+        oka = len(adefs) == 1 and call_name(resolve_locals(f, adefs[0])) == "_AggregateSmallWrites"
+        recv = wdefs[0].value if len(wdefs) == 1 and isinstance(wdefs[0], ast.Attribute) and wdefs[0].attr == "write" else None
+        okw = recv is not None and (src(recv) == "self._aggregator" or (isinstance(recv, ast.Name) and oka and src(adefs[0]) == recv.id))
+        ctx.check(okw and oka,
                   "aggregate/write-routes-through-aggregator", Q + "BufferingTLSTransport.__init__", "write is not bound to the aggregator")
 
     with ctx.section("_AggregateSmallWrites.write"):
@@ -666,24 +674,27 @@ def check(ctx):
         q = A + "write"
         dp = f.args.args[1].arg
         ap = [n for n, c in calls_with(g, "self._buffer.append") if c.args and src(c.args[0]) == dp]
-        dec = [x.id for x in g.nodes if x.kind == "stmt" and g.reachable(x.id) and isinstance(x.ast, ast.AugAssign) and src(x.ast.target) == "self._bufferLeft"
-               and isinstance(x.ast.op, ast.Sub) and src(x.ast.value) == f"len({dp})"]
         ctx.check(bool(ap) and g.must_pass([g.entry], ap) is None, "aggregate/append", q, "the data is not appended to the aggregation buffer on every path")
-        ctx.check(bool(dec) and g.must_pass([g.entry], dec) is None, "aggregate/size-coupled", q, "_bufferLeft is not reduced by len(data) together with the append")
         fl = call_nodes(g, "self.flush")
         cl = [(n, c) for n, c in calls_with(g, "self._clock.callLater")]
-        after = [s for d in dec for s in succ_of(g, d, None)]
-        w = must_pass_under(g, {"self._bufferLeft": -1}, fl, srcs=after)
+        small = {"self._bufferLeft": 10, f"len({dp})": 3, "self._scheduled": None}
+        ends = facts_at(g, small, [g.exit])
+        ctx.check(bool(ends) and all(e.get("self._bufferLeft") == 7 for e in ends), "aggregate/size-coupled", q,
+                  "_bufferLeft is not reduced by len(data) together with the append (evaluated: 10 bytes left, 3 written, "
+                  f"left afterwards: {sorted({repr(e.get('self._bufferLeft')) for e in ends})})")
+        w = must_pass_under(g, {"self._bufferLeft": 2, f"len({dp})": 3, "self._scheduled": None}, fl)
         ctx.check(w is None, "aggregate/flush-when-full", q + " | <buffer over limit>", "an over-full aggregation buffer is not flushed at once", witness=g.describe(w))
-        facts = {"self._bufferLeft": 0, "self._scheduled": None}
-        w = must_pass_under(g, facts, [n for n, _ in cl], srcs=after)
-        ctx.check(w is None, "aggregate/flush-scheduled", q + " | <first small write>",
-                  "a small write is buffered but no flush is scheduled: the bytes are never sent unless more data follows", witness=g.describe(w))
+        for left in (10, 3):        # room to spare / exactly full
+            facts = {"self._bufferLeft": left, f"len({dp})": 3, "self._scheduled": None}
+            w = must_pass_under(g, facts, [n for n, _ in cl])
+            ctx.check(w is None and not (reach_under(g, facts) & set(fl)), "aggregate/flush-scheduled", q + f" | <first small write, {left - 3} bytes left>",
+                      "a small write is buffered but no flush is scheduled (or it is flushed at once although it fits): the bytes are never sent unless more data follows",
+                      witness=g.describe(w))
         for n, c in cl:
             st_ = g.node(n).ast
             ok = isinstance(st_, ast.Assign) and src(st_.targets[0]) == "self._scheduled" and len(c.args) == 2 and src(c.args[1]) == "self._scheduledFlush"
             ctx.check(ok, "aggregate/flush-scheduled", ctx.construct(q, c), "the scheduled call is not remembered in _scheduled / does not run _scheduledFlush")
-        R = reach_under(g, {"self._bufferLeft": 0, "self._scheduled": NONNULL}, srcs=after)
+        R = reach_under(g, {"self._bufferLeft": 10, f"len({dp})": 3, "self._scheduled": NONNULL})
         ctx.check(not (R & {n for n, _ in cl}), "aggregate/one-timer", q + " | <flush already scheduled>", "a second flush timer is started while one is pending")
     with ctx.section("_AggregateSmallWrites._scheduledFlush"):
         # ---- sec: _AggregateSmallWrites._scheduledFlush
@@ -705,7 +716,7 @@ def check(ctx):
         w = must_pass_under(g, facts, [n for n, _ in wr])
         ctx.check(w is None, "aggregate/flush-writes", q + " | <non-empty>", "flush() does not write the aggregated bytes", witness=g.describe(w))
         for n, c in wr:
-            ctx.check(len(c.args) == 1 and src(c.args[0]) == "b''.join(self._buffer)", "aggregate/flush-writes", ctx.construct(q, c), "flush() does not write the buffered pieces joined in order")
+            ctx.check(len(c.args) == 1 and src(resolve_locals(f, c.args[0])) == "b''.join(self._buffer)", "aggregate/flush-writes", ctx.construct(q, c), "flush() does not write the buffered pieces joined in order")
         from sa.effects import accesses as _accesses
         acc = _accesses(f, "_AggregateSmallWrites.flush", {"_buffer"}, {"self"})
         clears = [i for a in acc if a.kind in ("clear", "rebind-empty", "del-prefix") for i in g.ids_of(a.node)]
@@ -874,6 +885,12 @@ MUTANTS = [
     Mutant("helper-shuts-down-while-writes-buffered", T, "        self.disconnecting = True\n        if not self._appSendBuffer and self._producer is None:\n            self._shutdownTLS()\n\n    def abortConnection",
            "        self.disconnecting = True\n        self._shutdownIfIdle()\n\n    def _shutdownIfIdle(self):\n        idle = self._producer is None\n        if idle:\n            self._shutdownTLS()\n\n    def abortConnection",
            expect_rule="shutdown/not-while-writes-buffered"),
+    Mutant("write-bound-to-a-second-aggregator", T, "        self.write = self._aggregator.write  # type: ignore[method-assign]",
+           "        self.write = _AggregateSmallWrites(actual_write, factory._clock).write  # type: ignore[method-assign]", expect_rule="aggregate/write-routes-through-aggregator"),
+    Mutant("aggregator-size-not-reduced-via-local", T, "        self._bufferLeft -= len(data)\n\n        if self._bufferLeft < 0:", "        room = self._bufferLeft - len(data)\n\n        if room < 0:",
+           expect_rule="aggregate/size-coupled"),
+    Mutant("rebuffered-suffix-through-wrong-temporary", T, "                self._bufferedWrite(bytes[alreadySent:])\n", "                rest = bytes[alreadySent + bufferSize :]\n                self._bufferedWrite(rest)\n",
+           expect_rule="write/wantread-rebuffers-unsent-suffix"),
     Mutant("buffering-writesequence-bypasses-aggregator", T, "        self._aggregator.write(b\"\".join(sequence))", "        super().write(b\"\".join(sequence))",
            expect_rule="aggregate/sequence-routes-through-aggregator"),
 ]
@@ -899,5 +916,29 @@ SILENT = [
            "        self._afterDrain()\n\n    def _afterDrain(self):\n        if self._appSendBuffer:\n            # If OpenSSL ran out of buffer space in the Connection on our way\n"),
     Silent("lose-tail-in-helper-with-named-condition", T, "        self.disconnecting = True\n        if not self._appSendBuffer and self._producer is None:\n            self._shutdownTLS()\n\n    def abortConnection",
            "        self.disconnecting = True\n        self._shutdownIfIdle()\n\n    def _shutdownIfIdle(self):\n        idle = not self._appSendBuffer and self._producer is None\n        if idle:\n            self._shutdownTLS()\n\n    def abortConnection"),
+    Silent("write-loop-straightened-with-named-temporaries", T,
+           "            toSend = bytes[alreadySent : alreadySent + bufferSize]\n            try:\n                sent = self._tlsConnection.send(toSend)\n            except WantReadError:\n"
+           "                self._bufferedWrite(bytes[alreadySent:])\n                break\n",
+           "            upTo = alreadySent + bufferSize\n            toSend = bytes[alreadySent:upTo]\n            try:\n                sent = self._tlsConnection.send(toSend)\n            except WantReadError:\n"
+           "                rest = bytes[alreadySent:]\n                self._bufferedWrite(rest)\n                return\n"),
+    Silent("receive-loop-body-in-helper-returning-a-flag", T,
+           "        while not self._lostTLSConnection:\n            try:\n                bytes = self._tlsConnection.recv(2**15)\n            except WantReadError:\n"
+           "                # The newly received bytes might not have been enough to produce\n                # any application data.\n                break\n",
+           "        while not self._lostTLSConnection:\n            if self._pullOnce() is False:\n                break\n\n        self._flushSendBIO()\n\n    def _pullOnce(self):\n"
+           "        if True:\n            try:\n                bytes = self._tlsConnection.recv(2**15)\n            except WantReadError:\n                return False\n",
+           more=[(T, "                if not self._aborted:\n                    ProtocolWrapper.dataReceived(self, bytes)\n\n        # The received bytes might have generated a response which needs to be\n"
+                     "        # sent now.  For example, the handshake involves several round-trip\n        # exchanges without ever producing application-bytes.\n        self._flushSendBIO()\n",
+                  "                if not self._aborted:\n                    ProtocolWrapper.dataReceived(self, bytes)\n        return True\n")]),
+    Silent("aggregator-with-locals-and-elif", T,
+           "        self._bufferLeft -= len(data)\n\n        if self._bufferLeft < 0:\n            # We've accumulated enough we should just write it out. No need to\n            # schedule a flush, since we just flushed everything.\n"
+           "            self.flush()\n            return\n\n        if self._scheduled:\n            # We already have a scheduled send, so with the data in the buffer,\n            # there is nothing more to do here.\n            return\n\n"
+           "        # Schedule the write of the accumulated buffer for the next reactor\n        # iteration.\n        self._scheduled = self._clock.callLater(0, self._scheduledFlush)\n",
+           "        room = self._bufferLeft - len(data)\n        self._bufferLeft = room\n        if room < 0:\n            self.flush()\n        elif not self._scheduled:\n"
+           "            self._scheduled = self._clock.callLater(0, self._scheduledFlush)\n",
+           more=[(T, "        if self._buffer:\n            self._bufferLeft = self.MAX_BUFFER_SIZE\n            self._write(b\"\".join(self._buffer))\n            del self._buffer[:]\n",
+                  "        held = self._buffer\n        if not held:\n            return\n        self._bufferLeft = self.MAX_BUFFER_SIZE\n        joined = b\"\".join(held)\n        self._write(joined)\n        held.clear()\n"),
+                 (T, "        actual_write = super().write\n        self._aggregator = _AggregateSmallWrites(actual_write, factory._clock)\n", "        agg = _AggregateSmallWrites(super().write, factory._clock)\n        self._aggregator = agg\n"),
+                 (T, "        self.write = self._aggregator.write  # type: ignore[method-assign]", "        self.write = agg.write  # type: ignore[method-assign]"),
+                 (T, "        self._aggregator.write(b\"\".join(sequence))", "        whole = b\"\".join(sequence)\n        self._aggregator.write(whole)")]),
     Silent("aggregator-clear-spelled", T, "            del self._buffer[:]\n", "            self._buffer.clear()\n"),
 ]
